@@ -104,8 +104,12 @@ def run_interleaving(case):
                         inner.append(acts[j])
                         j += 1
 
+                    early = (case.get("early") or {}).get(str(t))
+
                     def make_describer(inner_acts):
                         def describer():
+                            if early is not None:
+                                wait_turn(t)  # the build was ATTEMPTED earlier (it blocked on the lock); ABegin happens now
                             done_turn()  # the ABegin action itself (lock acquired, we are inside)
                             for b in inner_acts:
                                 wait_turn(t)
@@ -117,7 +121,12 @@ def run_interleaving(case):
                     describer = make_describer(inner)
                     describer.__qualname__ = "build_t%s_%d" % (t, i)
                     describer.__name__ = describer.__qualname__
-                    wait_turn(t)
+                    if early is not None:
+                        # attempt the build while another thread is still inside its describing function
+                        with cond:
+                            cond.wait_for(lambda: turn["i"] >= early, timeout=10)
+                    else:
+                        wait_turn(t)
                     d = tawazi.dag(describer)
                     ids = [k for k in d.exec_nodes.keys() if ">!>" not in k]
                     obs[t].append(("built", ids))
@@ -186,7 +195,27 @@ def gen_thread_case(rng):
                 if a[1] in seen:
                     a[1] = 1
                 seen.add(a[1])
-    return dict(threads=threads, sched=sched)
+    # early build attempts: a thread calls dag(...) while another thread holds the build lock; it blocks until
+    # that build ends.  Only when the next ABegin of the schedule after the attempt is this thread's own.
+    early = {}
+    owner = None
+    owners = []
+    rem2 = {t: list(a) for t, a in threads.items()}
+    for t in sched:
+        a = rem2[t].pop(0)
+        owners.append((t, a[0], owner))
+        if a[0] == "begin":
+            owner = t
+        elif a[0] == "end":
+            owner = None
+    for idx, (t, kind, _) in enumerate(owners):
+        if kind != "begin" or t in early or sum(1 for a in threads[t] if a[0] == "begin") != 1 or threads[t][0][0] != "begin":
+            continue
+        cands = [e for e in range(1, idx) if owners[e][2] is not None and owners[e][2] != t
+                 and not any(owners[j][1] == "begin" for j in range(e, idx))]
+        if cands and rng.random() < 0.6:
+            early[t] = rng.choice(cands)
+    return dict(threads=threads, sched=sched, early=early)
 
 
 def model_term(case, t):
@@ -275,6 +304,7 @@ def run_threads(pid, tier, seed, res, only=None):
     rng = random.Random(seed * 86028121 + 17)
     n = 60 if tier == "quick" else 600
     cases = [dict(threads={"1": [["begin"], ["desc", 1], ["desc", 2], ["end"]], "2": [["call", 100]]}, sched=["1", "1", "2", "1", "1"]),
+             dict(threads={"1": [["begin"], ["desc", 1], ["desc", 2], ["end"]], "2": [["begin"], ["desc", 3], ["desc", 100], ["end"]]}, sched=["1", "1", "1", "1", "2", "2", "2", "2"], early={"2": 2}),
              dict(threads={"1": [["begin"], ["desc", 1], ["desc", 100], ["end"]], "2": [["call", 2]], "3": [["call", 101]]}, sched=["1", "1", "2", "3", "1", "1"])]
     for _ in range(n):
         cases.append(gen_thread_case(rng))
@@ -394,7 +424,7 @@ def run_async(pid, tier, seed, res, only=None):
             return ("slow", x, ok)
         slow.__qualname__ = "slow%d" % k
         slow.__name__ = slow.__qualname__
-        sx = tawazi.xn(slow, resource=Resource.async_thread)
+        sx = tawazi.xn(slow, resource=Resource.async_thread, is_sequential=(k % 4 >= 2))
 
         def tail(x):
             return ("tail", x)
@@ -427,6 +457,35 @@ def run_async(pid, tier, seed, res, only=None):
         if not (isinstance(r, tuple) and r[0] == "tail" and r[1][2] is True and time.time() - t0 < 2.5):
             res.hit("C17", "monitor", "while an async-thread node was running the event loop did not serve a sibling coroutine (result %r, ticks %d, %.1fs)" % (r, ticks["n"], time.time() - t0), dict(engine="kasync", kind="monitor", variant=k))
         dist["liveness"] += 1
+    # concurrent awaits of an AsyncDAG whose setup node has not run yet: each gets its own result
+    for k in range(3 if tier == "quick" else 15):
+        res.evaluations += 1
+
+        def load():
+            time.sleep(0.005)
+            return 10
+        load.__qualname__ = "load%d" % k
+        load.__name__ = load.__qualname__
+        lx = tawazi.xn(load, setup=True)
+
+        def addv(x, t):
+            return x + t
+        addv.__qualname__ = "addv%d" % k
+        addv.__name__ = addv.__qualname__
+        ax = tawazi.xn(addv, resource=Resource.async_thread if k % 2 else Resource.thread)
+
+        def sdesc(x):
+            return ax(x, lx())
+        sdesc.__qualname__ = "sgather%d" % k
+        sdesc.__name__ = sdesc.__qualname__
+        d = tawazi.dag(sdesc, max_concurrency=2, is_async=True)
+
+        async def many():
+            return await asyncio.gather(*[d(v) for v in (1, 11, 21)], return_exceptions=True)
+        got = asyncio.run(many())
+        if got != [11, 21, 31]:
+            res.hit("C17", "monitor", "three concurrent awaits of one AsyncDAG (setup node not run yet) with arguments 1, 11, 21 returned %r; their own results are [11, 21, 31]" % (got,), dict(engine="kasync", kind="monitor", variant="setup-gather-%d" % k))
+        dist["setup_gather"] += 1
     res.distribution["kasync"] = dict(dist)
     res.engine_info["kasync"] = dict(programs=n)
     res.samples.append(dict(engine="kasync", note="liveness: node waits on a threading.Event set by a ticker coroutine of the same loop"))
